@@ -11,6 +11,7 @@ import SwcVerif.Model.Redirect
 import SwcVerif.Model.Population
 import SwcVerif.Model.Resample
 import SwcVerif.Model.Mst
+import SwcVerif.Model.Views
 
 def dispatch (op : String) (args : List String) : String :=
   match op with
@@ -32,6 +33,7 @@ def dispatch (op : String) (args : List String) : String :=
   | "chain" => Pop.handleChain args
   | "iso" | "lin" | "smooth" => Resample.handle op args
   | "mst" => Mst.handle args
+  | "views" => Views.handle args
   | "swcline" => SwcText.handleLine args
   | "swcread" => SwcText.handleRead args
   | "swcwrite" => SwcText.handleWrite args
